@@ -47,6 +47,14 @@ impl RRTPlanner {
 
         let collision_free = |joint_angles: &[f64]| -> bool {
             let joints = &<Joints>::try_from(joint_angles).expect("Cannot convert vector to array");
+            // A configuration outside the joint limits is not free either. The goal may be
+            // given by an equivalent angle outside the range (inverse kinematics stays close
+            // to the previous position), so the straight relocation may leave the limits.
+            if let Some(constraints) = kinematics.constraints() {
+                if !constraints.compliant(joints) {
+                    return false;
+                }
+            }
             !kinematics.collides(joints)
         };
 
